@@ -502,15 +502,22 @@ def extract_tables(out: Out, srcs):
 
     def setattr_rules():
         f = pr.func("Properties.__setattr__")
-        # find: if not isinstance(value, list): <if/elif chain>
-        guard = None
+        # either   if not isinstance(value, list): <chain on value>        (scalars only)
+        # or       for v in (value if isinstance(value, list) else [value]): <chain on v>   (every element)
+        chain, var, lists = None, None, None
         for iff in walk(f, ast.If):
-            if unparse(iff.test) == "not isinstance(value, list)" and guard is None and isinstance(iff.body[0], ast.If):
-                guard = iff
-        if guard is None or len(guard.body) != 1 or not isinstance(guard.body[0], ast.If):
-            raise Missing("if not isinstance(value, list): <chain>")
+            if unparse(iff.test) == "not isinstance(value, list)" and chain is None and isinstance(iff.body[0], ast.If):
+                chain, var, lists = iff.body[0], "value", False
+        for fo in walk(f, ast.For):
+            if unparse(fo.iter) == "value if isinstance(value, list) else [value]" and isinstance(fo.target, ast.Name) \
+                    and len(fo.body) == 1 and isinstance(fo.body[0], ast.If):
+                if chain is not None:
+                    raise Missing("two validation chains")
+                chain, var, lists = fo.body[0], fo.target.id, True
+        if chain is None:
+            raise Missing("forbidden-value chain in __setattr__")
         ranges, enums = [], []
-        node = guard.body[0]
+        node = chain
         while node is not None:
             t = node.test
             if not (isinstance(t, ast.BoolOp) and isinstance(t.op, ast.And) and len(t.values) == 2):
@@ -521,13 +528,13 @@ def extract_tables(out: Out, srcs):
             nl = [const(e) for e in nm.comparators[0].elts]
             if isinstance(cond, ast.BoolOp) and isinstance(cond.op, ast.Or):
                 a, b = cond.values
-                if not (unparse(a.left) == "value" and isinstance(a.ops[0], ast.Lt) and unparse(b.left) == "value" and isinstance(b.ops[0], ast.Gt)):
+                if not (unparse(a.left) == var and isinstance(a.ops[0], ast.Lt) and unparse(b.left) == var and isinstance(b.ops[0], ast.Gt)):
                     raise Missing("value < lo or value > hi")
                 ranges.append((nl, const(a.comparators[0]), const(b.comparators[0])))
             elif isinstance(cond, ast.BoolOp) and isinstance(cond.op, ast.And):
                 vals = []
                 for v in cond.values:
-                    if not (unparse(v.left) == "value" and isinstance(v.ops[0], ast.NotEq)):
+                    if not (unparse(v.left) == var and isinstance(v.ops[0], ast.NotEq)):
                         raise Missing("value != a and value != b")
                     vals.append(const(v.comparators[0]))
                 enums.append((nl, vals))
@@ -536,9 +543,11 @@ def extract_tables(out: Out, srcs):
             if not (len(node.body) == 1 and isinstance(node.body[0], ast.Raise)):
                 raise Missing("raise MQTTException")
             node = node.orelse[0] if node.orelse and isinstance(node.orelse[0], ast.If) else None
-        return ranges, enums
+        return ranges, enums, lists
     try:
-        ranges, enums = setattr_rules()
+        ranges, enums, lists = setattr_rules()
+        out.add(F, "propRulesOnLists", "Bool", "true" if lists else "false",
+                "properties.py Properties.__setattr__: forbidden-value rules applied to each element of a list value")
         out.add(F, "propRangeRules", "List (List String × Int × Int)",
                 "[" + ", ".join(f"([{', '.join(json.dumps(n) for n in nl)}], {lean_val(lo, 'Int')}, {lean_val(hi, 'Int')})" for nl, lo, hi in ranges) + "]",
                 "properties.py Properties.__setattr__: range rules (scalar values only)")
@@ -548,9 +557,48 @@ def extract_tables(out: Out, srcs):
     except Missing as e:
         out.missing(F, "propRangeRules", e)
         out.missing(F, "propEnumRules", e)
+        out.missing(F, "propRulesOnLists", e)
 
 
-EXTRACTORS = [extract_bytes, extract_tables]
+def extract_keepalive(out: Out, srcs):
+    F = "Consts"
+    c = srcs.get("client.py")
+
+    def ck():
+        f = c.func("Client._check_keepalive")
+        hits = []
+        for cmpn in walk(f, ast.Compare):
+            l = unparse(cmpn.left)
+            if l in ("now - last_msg_out", "now - last_msg_in") and unparse(cmpn.comparators[0]) == "self._keepalive":
+                hits.append((l, cmp_name(cmpn.ops[0])))
+        d = dict(hits)
+        if len(hits) != 2 or len(d) != 2:
+            raise Missing("now - last_msg_out >= self._keepalive or now - last_msg_in >= self._keepalive")
+        body = unparse(f)
+        for frag in ("if self._keepalive == 0:", "self._state == _ConnectionState.MQTT_CS_CONNECTED and self._ping_t == 0"):
+            if frag not in body:
+                raise Missing(frag)
+        return d["now - last_msg_out"], d["now - last_msg_in"]
+
+    def lm():
+        f = c.func("Client.loop_misc")
+        for cmpn in walk(f, ast.Compare):
+            if unparse(cmpn.left) == "now - self._ping_t" and unparse(cmpn.comparators[0]) == "self._keepalive":
+                if "self._ping_t > 0 and now - self._ping_t" not in unparse(f):
+                    raise Missing("self._ping_t > 0 and ...")
+                return cmp_name(cmpn.ops[0])
+        raise Missing("now - self._ping_t >= self._keepalive")
+    try:
+        a, b = ck()
+        out.add(F, "kaOutCmp", "Cmp", f".{a}", "client.py Client._check_keepalive: now - last_msg_out >= self._keepalive")
+        out.add(F, "kaInCmp", "Cmp", f".{b}", "client.py Client._check_keepalive: now - last_msg_in >= self._keepalive")
+    except Missing as e:
+        out.missing(F, "kaOutCmp", e)
+        out.missing(F, "kaInCmp", e)
+    out.anchor(F, "kaPingCmp", "Cmp", lm, "client.py Client.loop_misc: self._ping_t > 0 and now - self._ping_t >= self._keepalive")
+
+
+EXTRACTORS = [extract_bytes, extract_tables, extract_keepalive]
 
 
 def register(fn):
